@@ -109,7 +109,11 @@ fn rand_ops(r: &mut ChaChaRng, b: &mut B, m: i64, nops: usize, in_cb: bool, ncbs
                 b.nchal += 1;
                 Op::Chal { label: ["c", "shuffle challenge", "z"][r.gen_range(0..3)].to_string() }
             }
-            93..=95 => Op::Len,
+            93..=94 => Op::Len,
+            95 if in_cb && allow_bad => {
+                if r.gen_bool(0.5) { Op::Fail } else { Op::Alloc { a: None } }
+            }
+            95 => Op::Len,
             _ => {
                 let lc = rand_lc(r, b, m, in_cb);
                 b.nfix += 1;
